@@ -239,10 +239,12 @@ class C18(Check):
     def derive(self, st):
         from gaddlemaps import Alignment
         k = st.kind
+        st.nderive = getattr(st, 'nderive', -1) + 1
+        handover = st.nderive % 2 == 1          # every second derivation hands the original's own residues over
         if k == 'mol_copy' or k == 'mol_novel' or k in ('residue', 'atom'):
-            st.copy = st.orig.copy()
+            st.copy = st.orig.copy(st.orig.residues) if (handover and k.startswith('mol')) else st.orig.copy()
         elif k == 'mol_deep':
-            st.copy = st.orig.deep_copy()
+            st.copy = st.orig.deep_copy(st.orig.residues) if handover else st.orig.deep_copy()
         elif k == 'mol_align_start':
             st.keep = Alignment(start=st.orig)
             st.copy = st.keep.start
@@ -353,7 +355,7 @@ class C18(Check):
                     mod.pos = mod.pos.copy()
                     mod.pos[i1] = T['x']
                 elif name == 'view_vel_index':
-                    obj[i3].velocity = T['v'].copy()
+                    obj[i3 - n].velocity = T['v'].copy()          # the same atom, reached by a NEGATIVE index
                     mod.vel = list(mod.vel)
                     mod.vel[i3] = T['v'].copy()
                 elif name == 'view_vel_inplace':
@@ -452,7 +454,7 @@ class C18(Check):
         top = None
         if st.okind == 'molecule' and st.orig is not None:
             top = st.orig.molecule_top is st.copy.molecule_top
-        return (tuple(parts), tuple(ident), tuple(mem), top, hasattr(st, 'shared'))
+        return (tuple(parts), tuple(ident), tuple(mem), top, hasattr(st, 'shared'), getattr(st, 'nderive', 0) % 2)
 
     # -- driver ---------------------------------------------------------------
     def check_case(self, case, R, seed):
